@@ -19,6 +19,7 @@ def run(facts, tier):
         ("emptiness predicate support", lambda fa: predicates.obligations(fa, ['bloom_filter_alloc']), 2, "the emptiness predicate still consults every field it depended on in the reviewed tree (spec/predicates.json)"),
         ("tautologies", lambda fa: generic_lints.tautologies(fa, ('filters/',)), 2, "no comparison / assignment / min-max with two identical operands, no if-else with identical arms"),
         ("duplicate operands", lambda fa: generic_lints.duplicate_conjuncts(fa, ('filters/',)), 2, "no logical chain tests the same operand twice (copy-paste of the wrong peer)"),
+        ("state-writing shortcuts", lambda fa: generic_lints.state_writing_shortcuts(fa, ['bloom_filter_alloc']), 1, "no merge / update branch writes fields and returns early past the steps all other paths run (compaction loop, totals, cached counts); one reviewed exception"),
         ("forwarding peers", lambda fa: generic_lints.forwarding_peers(fa, ('filters/',)), 18, "one-statement typed overloads forward to an overload of their own name, never to the head of a sibling family (wrong peer)"),
     ):
         o = f(facts)
